@@ -540,3 +540,29 @@ func (c *Ctx) ParallelFor(n int, f func(i int)) {
 
 // Same reports deep equality (helper for oracles).
 func Same(a, b any) bool { return reflect.DeepEqual(a, b) }
+
+// Self-tests of the machinery (engines register theirs); run by `./check setup`.
+var selfTests []struct {
+	name string
+	f    func() error
+}
+
+func RegisterSelfTest(name string, f func() error) {
+	selfTests = append(selfTests, struct {
+		name string
+		f    func() error
+	}{name, f})
+}
+
+func RunSelfTests() int {
+	rc := 0
+	for _, t := range selfTests {
+		if err := t.f(); err != nil {
+			fmt.Printf("selftest %s: FAILED: %v\n", t.name, err)
+			rc = 2
+		} else {
+			fmt.Printf("selftest %s: ok\n", t.name)
+		}
+	}
+	return rc
+}
